@@ -49,8 +49,8 @@ func GnmiTypedValueToNativeType(gnmiTv *gnmi.TypedValue, modelPath *adminapi.Rea
 		}
 		return configapi.NewTypedValueDecimal(v.DecimalVal.Digits, uint8(v.DecimalVal.Precision)), nil
 	case *gnmi.TypedValue_FloatVal:
-		if math.IsNaN(float64(v.FloatVal)) {
-			return nil, fmt.Errorf("float value NaN is not supported")
+		if math.IsNaN(float64(v.FloatVal)) || math.IsInf(float64(v.FloatVal), 0) {
+			return nil, fmt.Errorf("float value %v is not supported", v.FloatVal)
 		}
 		return configapi.NewTypedValueFloat(float64(v.FloatVal)), nil
 	case *gnmi.TypedValue_LeaflistVal:
@@ -100,6 +100,10 @@ func handleLeafList(gnmiLl *gnmi.TypedValue_LeaflistVal, typeOpt0 uint8) (*confi
 			digitsList = append(digitsList, u.DecimalVal.Digits)
 			precision = uint8(u.DecimalVal.Precision)
 		case *gnmi.TypedValue_FloatVal:
+			// Neither can be rendered in the JSON document the configuration is validated with
+			if math.IsNaN(float64(u.FloatVal)) || math.IsInf(float64(u.FloatVal), 0) {
+				return nil, fmt.Errorf("float value %v is not supported", u.FloatVal)
+			}
 			floatList = append(floatList, u.FloatVal)
 		default:
 			return nil, fmt.Errorf("leaf list type Not yet supported %v", u)
